@@ -75,3 +75,9 @@ CONFIG = {
         "SignatureValidityCheck reads the wall clock: probes are at least 3 days away from `now`",
     ],
 }
+# statement-by-statement translation of small pure Go functions (tools/extract/trans.go -> lean/VGen/TransSpec.lean) and the
+# theorems that the translated definitions equal the model's, for all inputs (lean/VProps/TransSpec.lean)
+CONFIG["lean"] = list(CONFIG["lean"]) + ["VProps.TransSpec"]
+CONFIG["sources"] = list(CONFIG["sources"]) + ['VProps/TransSpec.lean', 'VModel/GoSem.lean']
+CONFIG["theorems"] = list(CONFIG["theorems"]) + ['V.Trans.Spec.isDNSNameChar_eq_model', 'V.Trans.Spec.isDNSNameChar_eq_event_model', 'V.Trans.Spec.isDNSNameChar_iff']
+CONFIG["trusted"] = list(CONFIG["trusted"]) + ["tools/extract/trans.go: the Go-to-Lean translation of the whitelisted functions and the Go semantics of lean/VModel/GoSem.lean (DESIGN.md §14)"]
